@@ -1124,13 +1124,7 @@ func ruleJSONKINDS(c *Ctx, r *Report) {
 		}
 		return out
 	}
-	var dec *ssa.Function
-	for _, f := range c.Funcs {
-		if fnPkgPath(f) == pkgExpr && f.Parent() == nil && f.Signature.Params().Len() == 1 && f.Signature.Results().Len() == 2 &&
-			isExprPtr(f.Signature.Results().At(0).Type()) && strings.HasSuffix(typeStr(f.Signature.Params().At(0).Type()), "json.RawMessage") {
-			dec = f
-		}
-	}
+	dec := c.rawLeafDecoder()
 	if dec == nil {
 		r.bad(rule, "decoder-literal", "-", "JSON literal decoder (func(json.RawMessage) (*Expression, error)) not found")
 		return
